@@ -195,9 +195,15 @@ CLAIMED['C01'] = {
     'engine': 'network-model', 'level': 'model_checking', 'design_ref': 'DESIGN.md section 4, C01',
     'technique': 'TLA+ composition of N instance specifications (Network.tla) model-checked by TLC for Settle (tree predicate after K quiet rounds) and NoFlap; every explored scheduling decision replayed on N real PtpInstances exchanging their real Announce octets; free-running simulations of the real code validated against TraceNet.tla',
     'text': ('Network.tla instantiates Instance.tla once per node and adds segments, rounds (announce interval = BMCA interval), receipt timeouts between T and 2T rounds and one fault '
-             '(cut a segment, silence a node, change a quality). TLC explores the complete state graph of every two-node ranking (incl. clockClass 6 and slave-only) and shows the '
+             '(cut or restore a segment, silence a node, change a quality). TLC explores the complete state graph of every two-node ranking (incl. clockClass 6 and slave-only) and shows the '
              'convergence bound K is tight; three- and four-node chains, stars, rings and shared segments are covered by simulation. Each edge is executed on real instances and the '
              'port states, parents, grandmasters and stepsRemoved compared; free runs with real timer durations, delays and drift are logged and checked by TLC against the tree predicate.'),
-    'note': 'restore-link faults and Sync/Delay traffic are not modelled; two ports of one instance on one segment is a recorded finding (steady state flaps); slave-only nodes are configured per IEEE 1588 (clockClass 255, not ranked above the grandmaster)',
+    'note': 'one fault per behaviour (cut / restore a segment, silence a node, change a quality); an instance with clockClass < 128 is the grandmaster of what lies behind it (per-instance tree predicate, DESIGN 0.4); two ports of one instance on one segment is a recorded finding (steady state flaps); slave-only nodes are configured per IEEE 1588 (clockClass 255, not ranked above the grandmaster)',
 }
+# Binding B of the instance specification and the network-level measurement runs are part of these checks
+for _c in ('C03', 'C05', 'C06', 'C07', 'C08', 'C09', 'C10', 'C11', 'C12', 'C14', 'C15'):
+    if 'TraceInstance' not in CLAIMED[_c]['technique']:
+        CLAIMED[_c]['technique'] += ' + trace validation: long random histories of host calls on a real PtpInstance are recorded and accepted by TLC iff every step is the step Instance.tla takes (TraceInstance.tla)'
+for _c in ('C09', 'C10'):
+    CLAIMED[_c]['technique'] += ' + networks of real instances exchanging their own Sync / Follow_Up / Delay_Req / Delay_Resp frames, every measurement checked for exactness by TLC (TraceNet.tla, MeasOK)'
 NOT_CLAIMED = {}
